@@ -585,7 +585,7 @@ fn main() {
     let mut rng = Sm64::new(args.seed);
     let thorough = args.tier == "thorough";
     let mut out = Out::new(&args.out, args.shards, "C15.Corr", "case", args.only);
-    let (n_exh, n_rand, n_km, n_ft) = if thorough { (160, 700, 900, 1200) } else { (40, 110, 170, 220) };
+    let (n_exh, n_rand, n_km, n_ft) = if thorough { (120, 500, 700, 900) } else { (40, 90, 150, 190) };
     let mut id: u64 = 0;
     for _ in 0..n_exh { let mut r = rng.fork(); nb_case(&mut out, id, &mut r, true, thorough); id += 1; }
     for _ in 0..n_rand { let mut r = rng.fork(); nb_case(&mut out, id, &mut r, false, thorough); id += 1; }
